@@ -354,6 +354,8 @@ func Mix(spec *OpSpec, args []interface{}) interface{} {
 		return []int64{int64(x % 3), int64(x % 5)}
 	case TStrList:
 		return []string{strPool[x%uint64(len(strPool))]}
+	case TRawInt:
+		return int(x%7) - 3 // a plain Go int: user code is not obliged to return int64
 	}
 	return int64(x % 11)
 }
